@@ -294,6 +294,44 @@ def rule_immediate(ctx):
                 r.instance("self-deferral without reason", False)
                 r.violate(DGN, "defer", "a node defers its own destruction although neither the depth cap was reached nor the "
                           "stamp test failed", h[2].loc())
+    # (2a) a node's stamp must age: it records the last release of / access to the node, and the cascade hands it to the
+    # children.  Code that runs at destruction time - at least three epochs after the release - must not refresh it: a
+    # mark (DESTRUCTED/WEAKED) that also writes the current epoch, or any other fresh stamp written by the deferred
+    # functions, makes every root hand "now" to its children, which are re-deferred at every level (3 epochs per node)
+    nst = 0
+    for f in sorted({TRY_DESTRUCT, DGN} | {n for n in prog.bodies if n in ("utils::dispose", "utils::RcInner::<T>::try_dealloc")}):
+        if f not in prog.bodies:
+            continue
+        r.functions.add(f)
+        seen = set()
+        for p in ctx.paths(f):
+            for s in ctx.sites_on_path(p):
+                if s["kind"] != "rmw" or s["op"] not in ("compare_exchange", "compare_exchange_weak"):
+                    continue
+                key = (s["event"].body.name, s["event"].bb)
+                if key in seen:
+                    continue
+                seen.add(key)
+                nst += 1
+                st = s["stamp"]
+                fresh = False
+                if st is not None:
+                    v = strip(st)
+                    while isinstance(v, tuple) and v[0] == "cast":
+                        v = strip(v[2])
+                    merged = isinstance(v, tuple) and v[0] == "call" and norm(v[1]) == "utils::Modular::max"
+                    fresh = not merged and any(x[0] == "call" and x[1] == "ebr_impl::default::global_epoch" for x in subterms(st))
+                ok = not fresh
+                r.instance("%s: count-word CAS at destruction time writes no fresh stamp (%s)" % (
+                    f.split("::")[-1], "none" if st is None else "merge" if not fresh else "current epoch"), ok)
+                if not ok:
+                    r.violate(f, "fresh-stamp", "a count-word update made at destruction time (%s) stamps the current epoch: the "
+                              "stamp no longer records when the node was released, every root hands `now` to its children and "
+                              "each level of a chain waits its own three epochs" % (
+                                  "the DESTRUCTED mark" if s["sets"].get("destructed") is not None else "a deferred function"),
+                              s["event"].loc())
+    if nst < 2 and not r.violations:
+        r.floor_failures.append("REC-IMMEDIATE: found %d count-word CAS sites in the deferred functions, expected at least 2" % nst)
     # (2b) the stamp given to a child is exactly max(parent, link, child): replacing one of them by the current epoch (or
     # anything else) is safe but makes every child "too recent", i.e. one grace period per node
     from .registry import run_rules
